@@ -4,7 +4,7 @@
    unrecovered arithmetic). Proofs: proofs/PipelineProofs.v, proofs/ReadPathProofs.v. *)
 From Coq Require Import List ZArith Bool.
 From Qryn Require Import model.ReaderGoroutines model.ReaderFlow proofs.ReaderFlowProofs gen.GenGoroutinesReader model.Pipeline model.ReadPath model.ReadFwd
-  model.ReadProm proofs.PipelineProofs proofs.ReadPathProofs proofs.ReadFwdProofs proofs.ReadPromProofs.
+  model.ReadProm model.ReadConv proofs.PipelineProofs proofs.ReadPathProofs proofs.ReadFwdProofs proofs.ReadPromProofs proofs.ReadConvProofs.
 From Qryn Require model.TailSession proofs.TailSessionProofs.   (* qualified: its step / star / init are not the pipeline's *)
 From Qryn Require model.ProfTree model.ProfDiff model.ReadProf proofs.ReadProfProofs.   (* qualified: ProfTree.row is not ReadPath.row *)
 Import ListNotations.
@@ -381,3 +381,45 @@ Proof.
   split; [exact ReadProfProofs.selfloop_is_what_the_rows_give | exact ReadProfProofs.selfloop_walk_budgeted].
 Qed.
 Print Assumptions diff_walk_needs_its_budget.
+
+(* ---------------------------------------------------------------------------------------------------------------------
+   Float -> int64 conversion of request parameters (model/ReadConv.v). Go leaves int64(f) implementation-defined for a
+   NaN, an infinity and |f| >= 2^63 (amd64: -2^63; arm64: saturation, NaN -> 0): the model takes ANY integer for it. *)
+
+(* Loki query_range at nanosecond granularity, start / end through getRequiredNs and step through parseDuration: whatever
+   the three conversions yield (any_s, any_e, any_step range over ALL integers), a request the controller and the planner
+   let through has a safe context, so for every result set every interleaving of its pipeline is finite, never crashes
+   -- the goroutine without recover included -- and ends with every goroutine returned. *)
+Theorem float_conversion_cannot_break_the_pipeline : forall q s e stp any_s any_e any_step sh c rows,
+  range_prelude_ns q s e stp any_s any_e any_step = PRun sh c ->
+  let c0 := init_config (map MRow rows) (stages_of sh c) in
+  Acc (fun c' c1 : config st msg => step c1 c') c0 /\
+  forall cf, star c0 cf -> crashed cf = false /\ (quiescent cf -> all_done (cells cf)).
+Proof. exact conv_chain_terminates. Qed.
+Print Assumptions float_conversion_cannot_break_the_pipeline.
+
+(* the hypothesis is met, and the outcome CLASS does depend on the value (so it is the guards, not the value, that give
+   the safety): start = NaN on a log query runs with the amd64 value and with the arm64 value; a rate query over the
+   amd64 value is refused (window beyond int64); end = NaN is refused with 0 as with -2^63 ... unless the conversion
+   happens to yield a sensible end, in which case the request runs *)
+Theorem float_conversion_examples :
+  (exists c, range_prelude_ns (nan_start_request ShLog) (FpNum FUndef) (FpNum (FExact 1700000340000000000)) FpAbsent
+               (-9223372036854775808) 0 0 = PRun ShLog c) /\
+  (exists c, range_prelude_ns (nan_start_request ShLog) (FpNum FUndef) (FpNum (FExact 1700000340000000000)) FpAbsent 0 0 0 = PRun ShLog c) /\
+  range_prelude_ns (nan_start_request ShRate) (FpNum FUndef) (FpNum (FExact 1700000340000000000)) FpAbsent
+               (-9223372036854775808) 0 0 = PResp O5xx /\
+  range_prelude_ns (nan_start_request ShRate) (FpNum (FExact 1700000040000000000)) (FpNum FUndef) FpAbsent
+               0 (-9223372036854775808) 0 = PResp O4xx /\
+  (exists c, range_prelude_ns (nan_start_request ShRate) (FpNum (FExact 1700000040000000000)) (FpNum FUndef) (FpNum FUndef)
+               0 1700000340000000000 15000 = PRun ShRate c).
+Proof. exact conv_examples. Qed.
+Print Assumptions float_conversion_examples.
+
+(* Prometheus query / query_range: ParseTimeSecOrRFC converts a text of digits and dots with int64(t), parseDuration lets a
+   NaN through its range check (both comparisons are false) and float64(MaxInt64) is 2^63 itself. Whatever integers the
+   conversions yield for start, end and step: the controller refuses the request or hands the engine a positive step, at
+   most 11,000 points and subquery evaluators of at most 11,000 steps. *)
+Theorem prom_conversion_any_value_is_bounded : forall (inst : bool) (now any_start any_end any_step : Z) (e : pexpr),
+  pwf e = true -> engine_bounded (prom_outcome (mkPR inst now (PNum any_start) (PNum any_end) (PNum any_step) (PQ e))).
+Proof. intros inst now a b c e H. apply prom_accepted_bounded. exact H. Qed.
+Print Assumptions prom_conversion_any_value_is_bounded.
